@@ -74,8 +74,8 @@ class Driver(Device, metaclass=DriverMeta):
     def _all_group_definitions(cls) -> Dict[str, GroupDefinition]:
         groups: Dict[str, GroupDefinition] = {}
         for base in cls.__bases__:
-            if issubclass(base, Driver) or base is Driver:
-                groups = {**groups, **cast(Type[Driver], base)._group_definitions}
+            if issubclass(base, Driver):
+                groups = {**groups, **cast(Type[Driver], base)._all_group_definitions()}
         for k, v in cls._group_definitions.items():
             if isinstance(v, GroupDefinition):
                 groups[k] = v
